@@ -2030,12 +2030,44 @@ func runC12(run *Run, replay string) Spec {
 	if run.Tier == "thorough" {
 		n = 60000
 	}
-	for k := 0; k < n && run.NViolations() < 5; k++ {
+	// after a disagreement between model and implementation the search goes on for a while: a history on which a
+	// model-independent oracle fails is the better replay
+	for k := 0; k < n && (run.NViolations() < 5 || (run.NOracleViolations() == 0 && run.NViolations() < 40)); k++ {
 		rng := subRng(run.Seed, k)
+		if k%12 == 11 {
+			exec(c12GenBurst(rng))
+			continue
+		}
 		exec(c12Gen1(rng))
 	}
 	_ = os.Remove(curPath)
 	return spec
+}
+
+// a quiet history with many events: 2-4 subscribers with filters of 1-4 values (numbers or strings) on one trigger, a burst of
+// 8-14 events, Complete.  Nothing races, so every event that passes a filter must arrive, in order (the exactness half of C12).
+func c12GenBurst(rng *rand.Rand) *c12Scenario {
+	sc := &c12Scenario{}
+	ns := 2 + rng.Intn(3)
+	for i := 0; i < ns; i++ {
+		op := c12Op{Kind: "sub", I: i, Conn: i % 3}
+		if i > 0 || rng.Intn(2) == 0 {
+			op.Filter = []int{}
+			for k := 1 + rng.Intn(4); k > 0; k-- {
+				op.Filter = append(op.Filter, rng.Intn(5))
+			}
+			op.FilterStr = rng.Intn(2) == 0
+		}
+		sc.Ops = append(sc.Ops, op)
+		if i == 0 {
+			sc.Ops = append(sc.Ops, c12Op{Kind: "startOk", G: 0})
+		}
+	}
+	for k := 8 + rng.Intn(7); k > 0; k-- {
+		sc.Ops = append(sc.Ops, c12Op{Kind: "event", G: 0})
+	}
+	sc.Ops = append(sc.Ops, c12Op{Kind: "complete", G: 0}, c12Op{Kind: "done", G: 0}, c12Op{Kind: "shutdown"})
+	return sc
 }
 
 // minimised past failures and the racing pairs named in the property
